@@ -57,7 +57,14 @@ def growth_sites(unit):
             if n.get("k") != "if":
                 continue
             c = X.strip(n["cond"])
-            if c.get("k") != "bin" or c.get("op") not in ("==", ">="):
+            neg_ = False
+            while c is not None and c.get("k") == "un" and c.get("op") == "!":
+                neg_ = not neg_
+                c = X.strip(c["ch"][0])
+            if c is None or c.get("k") != "bin":
+                continue
+            op_ = {"==": "!=", "!=": "==", "<": ">=", ">=": "<", ">": "<=", "<=": ">"}.get(c.get("op")) if neg_ else c.get("op")
+            if op_ not in ("==", ">="):
                 continue
             a, b = X.strip(c["ch"][0]), X.strip(c["ch"][1])
             idx = cnt = None
@@ -81,6 +88,35 @@ def growth_sites(unit):
                         factor = ("add", X.const_val(m["ch"][1]), None)
                     elif m.get("op") == "=":
                         factor = _growth_factor(f, m["ch"][1], cnt["n"]) or factor
+            if factor is None:
+                # the enlargement sits in a unit-local helper that is handed the address of the capacity (grow(table, &CNT, size))
+                for c_ in X.calls_in(n["then"]):
+                    g_ = unit.functions.get(X.callee_name(c_) or "")
+                    if g_ is None or g_.body is None:
+                        continue
+                    for k_, a_ in enumerate(c_["ch"][1:]):
+                        sa_ = X.strip(a_)
+                        if sa_ is not None and sa_.get("k") == "un" and sa_.get("op") == "&" and glob_ref(sa_["ch"][0], cnt["n"]) is not None and k_ < len(g_.params):
+                            pd_ = g_.params[k_]["d"]
+                            for m in walk(g_.body):
+                                if m.get("k") != "assign":
+                                    continue
+                                t_ = X.strip(m["ch"][0])
+                                if not (t_.get("k") == "un" and t_.get("op") == "*" and X.strip(t_["ch"][0]).get("d") == pd_):
+                                    continue
+                                wt = t_.get("tw")
+                                nar = wt if (wt and wt < (cnt.get("tw") or 32)) else None
+                                if m.get("op") == "*=" and X.const_val(m["ch"][1]) is not None:
+                                    factor = ("mul", X.const_val(m["ch"][1]), nar)
+                                elif m.get("op") == "+=" and X.const_val(m["ch"][1]) is not None:
+                                    factor = ("add", X.const_val(m["ch"][1]), nar)
+                                elif m.get("op") == "=":
+                                    r_ = X.strip(m["ch"][1])
+                                    if r_.get("k") == "bin" and r_.get("op") in ("*", "+"):
+                                        for x_, y_ in ((r_["ch"][0], r_["ch"][1]), (r_["ch"][1], r_["ch"][0])):
+                                            sx_ = X.strip(x_)
+                                            if sx_.get("k") == "un" and sx_.get("op") == "*" and X.strip(sx_["ch"][0]).get("d") == pd_ and X.const_val(y_) is not None:
+                                                factor = ("mul" if r_["op"] == "*" else "add", X.const_val(y_), nar)
             if factor is not None:
                 res.append((f, idx, cnt, factor, n))
     return res
@@ -378,12 +414,33 @@ def check_spawn(chk, prog, allowed):
             if cn:
                 callers.setdefault(cn, []).append((g, c))
 
-    def under_trigger(f, c, trig):
+    def mentions_trigger(f, e, trig, depth=0):
+        for x in walk(e):
+            if x.get("k") == "str" and trig in (x.get("sv") or ""):
+                return True
+            if x.get("k") == "ref" and x.get("rk") == "local" and depth < 2:
+                # a flag computed from the directive test beforehand (is_preproc = directive && !strncasecmp(.., "preproc "))
+                defs = []       # (value expression, defining node)
+                for y in walk(f.body):
+                    if y.get("k") == "assign" and y.get("op") == "=" and X.strip(y["ch"][0]).get("d") == x.get("d"):
+                        defs.append((y["ch"][1], y))
+                    elif y.get("k") == "decl":
+                        defs += [(d["init"], y) for d in y.get("decls", ()) if d["d"] == x.get("d") and d.get("init") is not None]
+                truthy = [(v, y) for v, y in defs if X.const_val(v) is None or X.const_val(v)]
+                # every way the flag becomes true carries the trigger: computed from the directive test, or set to a truthy
+                # constant under it
+                if truthy and all((X.const_val(v) is None and mentions_trigger(f, v, trig, depth + 1)) or
+                                  (X.const_val(v) is not None and under_trigger(f, y, trig, depth + 1)) for v, y in truthy):
+                    return True
+        return False
+
+    def under_trigger(f, c, trig, depth=0):
+        child = c
         for anc in f.ancestors(c):
-            if anc.get("k") == "if":
-                for x in walk(anc["cond"]):
-                    if x.get("k") == "str" and trig in (x.get("sv") or ""):
-                        return True
+            if anc.get("k") == "if" and anc.get("then") is not None and any(y is child for y in walk(anc["then"])):
+                if mentions_trigger(f, anc["cond"], trig, depth):
+                    return True
+            child = anc
         return False
 
     def position_ok(f, c, depth=0):
@@ -589,6 +646,16 @@ def check_push_writes(chk, unit, fnames):
                         g_ = glob_ref(y)
                         if g_ is not None and g_.get("tp") and g_["n"] not in (idx["n"], cnt["n"]):
                             tab = g_["n"]
+        if tab is None:
+            # reallocated by a unit-local helper that is handed the table (TAB = grow(TAB, &CNT, size))
+            for c in X.calls_in(f.body):
+                g_ = unit.functions.get(X.callee_name(c) or "")
+                if g_ is not None and g_.body is not None and any(X.callee_name(c2) in ("realloc", "spifmem_realloc") for c2 in X.calls_in(g_.body)):
+                    for a in c["ch"][1:]:
+                        sa = X.strip(a)
+                        g2 = glob_ref(sa) if sa is not None else None
+                        if g2 is not None and g2.get("tp") and g2["n"] not in (idx["n"], cnt["n"]):
+                            tab = g2["n"]
         if tab is None:
             raise AnalysisBroken("table of %s not recognised" % name)
         # locals that point into the table (top = TAB + IDX; slot = &TAB[IDX])
